@@ -82,6 +82,29 @@ func c11Shapes() []c11Shape {
 			[]c11Listener{{"C0", 0, "B0", false}, {"C1", 1, "B1", false}, {"C2", 0, "B2", false}},
 			map[string][]int{"": {0, 1, 2}}, []string{"B0", "B1", "B2"}, 0})
 	}
+	{ // parallel, two listeners for the same MESSAGE: start -> F -> {C0(msg e1)->B0, C1(msg e1)->B1, C2(sig e0)->B2} -> J -> end
+		p := &Prog{}
+		p.Node("start", "start")
+		p.Node("par", "F")
+		c11Catch(p, "C0", 1, true)
+		c11Catch(p, "C1", 1, true)
+		c11Catch(p, "C2", 0, false)
+		p.Node("task", "B0")
+		p.Node("task", "B1")
+		p.Node("task", "B2")
+		p.Node("par", "J")
+		p.Node("end", "end")
+		p.Flow("start", "F", "")
+		for i := 0; i < 3; i++ {
+			p.Flow("F", fmt.Sprintf("C%d", i), "")
+			p.Flow(fmt.Sprintf("C%d", i), fmt.Sprintf("B%d", i), "")
+			p.Flow(fmt.Sprintf("B%d", i), "J", "")
+		}
+		p.Flow("J", "end", "")
+		out = append(out, c11Shape{"parallel-messages", p, extra, nil,
+			[]c11Listener{{"C0", 1, "B0", true}, {"C1", 1, "B1", true}, {"C2", 0, "B2", false}},
+			map[string][]int{"": {0, 1, 2}}, []string{"B0", "B1", "B2"}, 0})
+	}
 	{ // untaken branch: start -> X -[c0]-> C0(e0) -> B0 -> end | default -> A -> C1(e1) -> B1 -> end
 		p := &Prog{}
 		p.Node("start", "start")
